@@ -747,7 +747,12 @@ func (n *BitcoinNode) handleBlock(ctx context.Context, header *wire.MessageHeade
 		return nil // not a failure of the node because it could have been previously requested
 	}
 
-	defer n.completeBlock(ctx, blockHash)
+	complete := true
+	defer func() {
+		if complete {
+			n.completeBlock(ctx, blockHash)
+		}
+	}()
 
 	if blockHandler == nil {
 		// Block cancelled before it started downloading.
@@ -764,6 +769,9 @@ func (n *BitcoinNode) handleBlock(ctx context.Context, header *wire.MessageHeade
 	// Read transaction count
 	txCount, err := wire.ReadVarInt(rb, wire.ProtocolVersion)
 	if err != nil {
+		// The block handler was not started. Leave the request outstanding: this error ends the
+		// connection and the request is then reported through its "on stop" function.
+		complete = false
 		logger.Verbose(ctx, "Aborting block download (read tx count) : %s", err)
 		return errors.Wrap(errors.Wrap(err, blockHash.String()), "read tx count")
 	}
